@@ -25,12 +25,10 @@ CRATE_SRC = ['curve25519-dalek/src', 'ed25519-dalek/src', 'x25519-dalek/src']
 EXCLUDE_FILES = {'curve25519-dalek/src/verif_hooks.rs'}
 SKIP_DIRS = {'tests', 'benches', 'examples'}
 
-WIPE_FILES = {
-    'curve25519-dalek/src/backend/serial/scalar_mul/straus.rs': None,      # None = every fn of the file
-    'curve25519-dalek/src/backend/vector/scalar_mul/straus.rs': None,
-    'curve25519-dalek/src/scalar.rs': {'batch_invert'},
-    'curve25519-dalek/src/field.rs': {'batch_invert'},
-}
+# heap-allocation markers (token level) for the WipeFact inventory: every non-test fn of the three crates
+HEAP_TYPES = {'Vec', 'Box', 'String', 'Rc', 'Arc', 'VecDeque', 'BTreeMap', 'BTreeSet', 'HashMap', 'HashSet', 'Cow'}
+HEAP_METHODS = {'collect', 'to_vec', 'to_owned', 'into_vec', 'to_string', 'into_boxed_slice', 'into_owned'}
+HEAP_MACROS = {'vec', 'format'}
 
 PANIC_MACROS = {'panic', 'assert', 'assert_eq', 'assert_ne', 'debug_assert', 'debug_assert_eq',
                 'debug_assert_ne', 'unreachable', 'unimplemented', 'todo'}
@@ -419,6 +417,11 @@ class FileScan(object):
                 nm = pre + it.name
                 # body of the invocation / definition
                 j = it.start
+                while j < it.end and not is_p(toks[j], '!'):      # skip the item's attributes and the macro path
+                    if is_p(toks[j], '#') and j + 1 < it.end and is_p(toks[j + 1], '['):
+                        j = rslex.match_delim(toks, j + 1)
+                        continue
+                    j += 1
                 while j < it.end and not (toks[j][0] == 'p' and toks[j][1] in _OPEN):
                     j += 1
                 if j < it.end:
@@ -431,6 +434,15 @@ class FileScan(object):
                             if b < k - 1 and is_p(toks[b], '{'):
                                 e = rslex.match_delim(toks, b)
                                 self.mark(b, e, nm + '::' + toks[q + 1][1])
+                                fi = FnInfo()
+                                fi.name = nm + '::' + toks[q + 1][1]
+                                fi.short = toks[q + 1][1]
+                                fi.item = None
+                                fi.body = (b, e)
+                                fi.toks = toks
+                                fi.file = self.sf.relname
+                                fi.slice_params = set()
+                                self.fns.append(fi)
                         q += 1
 
 
@@ -796,19 +808,92 @@ def wipe_fact(fi):
             'usesAfterWipe': uses_after, 'exitsBeforeWipe': exits_before}
 
 
+def heap_locals(fs, fi):
+    """names of the locals of `fi` (at any nesting depth, closures included, nested fn items excluded) whose
+    `let` statement contains a heap-allocation marker (`Vec`/`Box`/`String`/.. type or constructor, `vec![]`,
+    `format!`, `.collect()`, `.to_vec()`, `.to_owned()`, ..); allocation expressions that are not bound by a `let`
+    are reported as `<expr> text`."""
+    toks = fi.toks
+    a, b = fi.body
+    owner = fs.owner
+    mine = [i for i in range(a + 1, b - 1) if owner[i] == fi.name]
+    lets = []
+    for i in mine:
+        t = toks[i]
+        if t[0] == 'id' and t[1] == 'let':
+            if i > 0 and toks[i - 1][0] == 'id' and toks[i - 1][1] in ('if', 'while'):
+                continue
+            j = i + 1
+            if toks[j][0] == 'id' and toks[j][1] == 'mut':
+                j += 1
+            e = rslex._find_at_depth0(toks, i, b - 1, (';',))
+            if toks[j][0] == 'id' and toks[j][1] not in KEYWORDS:
+                name = toks[j][1]
+            else:
+                q = rslex._find_at_depth0(toks, j, e, (':', '='))
+                name = render(toks, j, q)
+            lets.append((i, e, name))
+    out = []
+    for i in mine:
+        t = toks[i]
+        if t[0] != 'id':
+            continue
+        x = t[1]
+        nxt = toks[i + 1] if i + 1 < b else None
+        hit = False
+        if x in HEAP_TYPES:
+            hit = True
+        elif x in HEAP_MACROS and nxt is not None and is_p(nxt, '!'):
+            hit = True
+        elif x in HEAP_METHODS and i > 0 and is_p(toks[i - 1], '.') and nxt is not None \
+                and (is_p(nxt, '(') or is_p(nxt, '::')):
+            hit = True
+        if not hit:
+            continue
+        best = None
+        for (ls, le, name) in lets:
+            if ls <= i < le and (best is None or ls > best[0]):
+                best = (ls, le, name)
+        if best is not None:
+            nm = best[2]
+        else:
+            s0 = expr_start(toks, i, a + 1)
+            e0 = expr_end(toks, i, b - 1)
+            nm = '<expr> ' + clip_head(render(toks, s0, e0))
+        if nm not in out:
+            out.append(nm)
+    return out
+
+
 def wipe_facts(scans):
+    """one WipeFact for every non-test fn (macro-body fns included) of the three crates that has at least one
+    heap-allocating local / expression."""
     out = []
     for fs in scans:
-        sel = WIPE_FILES.get(fs.sf.relname, False)
-        if sel is False:
-            continue
         for fi in fs.fns:
-            if sel is not None and fi.short not in sel:
+            hl = heap_locals(fs, fi)
+            if not hl:
                 continue
             w = wipe_fact(fi)
-            if w['vecLocals'] or sel is not None:
-                out.append(w)
+            for v in w['vecLocals']:
+                if v not in hl:
+                    hl.append(v)
+            w['vecLocals'] = hl
+            out.append(w)
     out.sort(key=lambda w: (w['file'], w['func']))
+    return out
+
+
+def scanned_fns(scans):
+    """[(file, [qualified names of the non-test fns with a body])] : what the WipeFact inventory looked at."""
+    out = []
+    for fs in scans:
+        names = []
+        for fi in fs.fns:
+            if fi.name not in names:
+                names.append(fi.name)
+        if names:
+            out.append((fs.sf.relname, names))
     return out
 
 
@@ -853,6 +938,7 @@ def collect(repo, srcs=None):
     scans = [fs for fs in scans if fs.sf.relname not in test_files]
     dfacts, zfacts = drop_and_zeroize_facts(scans)
     wfacts = wipe_facts(scans)
+    sfns = scanned_fns(scans)
     sites = []
     for fs in scans:
         sites.extend(panic_sites_of_file(fs))
@@ -863,7 +949,7 @@ def collect(repo, srcs=None):
         occ[k] = s['occ'] + 1
         s['key'] = encode_key(*k)
     return {'drop_facts': dfacts, 'zeroize_facts': zfacts, 'wipe_facts': wfacts, 'panic_sites': sites,
-            'errors': errors, 'files': [fs.sf.relname for fs in scans]}
+            'errors': errors, 'files': [fs.sf.relname for fs in scans], 'scanned_fns': sfns}
 
 
 def lstr(s):
@@ -918,8 +1004,11 @@ def emit_lean(header, inv):
          'their structured form (`ops`). -/',
          'structure ZeroizeFact where\n  ty : String\n  file : String\n  gate : String\n  derived : Bool\n'
          '  body : List String\n  ops : List ZOp\n',
-         '/-- Heap buffers of a function: `vecLocals` = locals that are `Vec`s (declared `Vec<..>`, `vec![..]`,\n'
-         '`.collect::<Vec<_>>()`), `wiped` = those that are zeroised by a top-level statement of the function body\n'
+         '/-- Heap buffers of a function (one fact for every non-test fn of the three crates that has any):\n'
+         '`vecLocals` = locals, at any nesting depth, whose `let` contains a heap-allocation marker (`Vec`/`Box`/`String`/..\n'
+         'type or constructor, `vec![..]`, `format!`, `.collect()`, `.to_vec()`, `.to_owned()`, ..); an allocation that is\n'
+         'not bound by a `let` appears as `<expr> text`.\n'
+         '`wiped` = those that are zeroised by a top-level statement of the function body\n'
          '(`Zeroize::zeroize(&mut v)` / `v.zeroize()`) or moved into a `Zeroizing::new(..)` wrapper.\n'
          '`usesAfterWipe` = occurrences of an explicitly wiped local after its wiping statement;\n'
          '`exitsBeforeWipe` = `return` / `?` tokens before an explicit wiping statement. -/',
@@ -965,6 +1054,10 @@ def emit_lean(header, inv):
             for s in sites[c:c + chunk]) + ']\n')
     o.append('/-- every syntactic panic site of the non-test code, in source order -/')
     o.append('def panicSites : List PanicSite :=\n  %s\n' % (' ++ '.join(names) if names else '[]'))
+    o.append('/-- every non-test fn with a body that the inventory looked at, per file (fns inside `macro_rules!` bodies\n'
+             'appear as `macro_rules!name::fn`); a fn listed here and absent from `wipeFacts` has no heap-allocation marker -/')
+    o.append('def scannedFns : List (String × List String) := [')
+    o.append(',\n'.join('  (%s, %s)' % (lstr(f), llist(ns)) for f, ns in inv['scanned_fns']) + ']\n')
     o.append('/-- files scanned for panic sites -/')
     o.append('def scannedFiles : List String := [\n  %s]\n' % ',\n  '.join(lstr(f) for f in inv['files']))
     o.append('/-- files that could not be scanned (must be empty) -/')
